@@ -57,9 +57,10 @@ func isNewHelper(g *ssa.Function) bool {
 	}
 	r := len(g.Blocks) > 0 && g.Synthetic == "" && IsOwn(g) && IsProd(g) && len(knownFuncsTxt) > 100 && !knownFunc(FuncKey(g))
 	if r && g.Parent() != nil {
-		// a function literal counts only when it is called on the spot (func(){…}()), never
-		// stored, passed, deferred or started as a goroutine
-		r = immediatelyInvoked(g)
+		// a function literal counts only when it is called on the spot (func(){…}()), or handed
+		// straight to a new helper that calls it synchronously (withLock(func(){…})); never
+		// when stored, deferred or started as a goroutine
+		r = immediatelyInvoked(g) || len(runByNewHelper(g)) > 0
 	}
 	newHelperMemo[g] = r
 	return r
@@ -154,6 +155,12 @@ func helperChains(root, target *ssa.Function) [][]*ssa.Call {
 					out = append(out, ch)
 				}
 				rec(g, ch)
+				for _, cl := range closuresRunAt(in) {
+					if cl == target {
+						out = append(out, ch)
+					}
+					rec(cl, ch)
+				}
 			}
 		}
 	}
@@ -187,6 +194,13 @@ func funcAndHelpers(root *ssa.Function) []*ssa.Function {
 					seen[g] = true
 					out = append(out, g)
 					rec(g, d+1)
+				}
+				for _, cl := range closuresRunAt(in) {
+					if !seen[cl] {
+						seen[cl] = true
+						out = append(out, cl)
+						rec(cl, d+1)
+					}
 				}
 			}
 		}
@@ -254,10 +268,7 @@ func liftTerm(root, from *ssa.Function, t *Term, conv bool) *Term {
 	}
 	var res *Term
 	for _, ch := range chains {
-		x := t
-		for i := len(ch) - 1; i >= 0; i-- {
-			x = substParams(x, argTerms(newTBMode(conv), ch[i]))
-		}
+		x := substAlong(ch, from, t, conv)
 		if res == nil {
 			res = x
 		} else if res.String() != x.String() {
@@ -623,4 +634,120 @@ func knownRootOf(fn *ssa.Function) *ssa.Function {
 		fn = sites[0].Parent()
 	}
 	return fn
+}
+
+var runByMemo = map[*ssa.Function][]*ssa.Call{}
+
+// runByNewHelper: the calls `helper(…, func(){…}, …)` through which function literal g runs:
+// every use of the literal is such an argument, the helper is a new helper (not in the
+// reference table) and calls that parameter directly (not via go/defer).
+func runByNewHelper(g *ssa.Function) []*ssa.Call {
+	if v, ok := runByMemo[g]; ok {
+		return v
+	}
+	runByMemo[g] = nil
+	par := g.Parent()
+	if par == nil {
+		return nil
+	}
+	var out []*ssa.Call
+	for _, b := range par.Blocks {
+		for _, in := range b.Instrs {
+			mc, ok := in.(*ssa.MakeClosure)
+			if !ok || mc.Fn != ssa.Value(g) {
+				continue
+			}
+			for _, r := range *mc.Referrers() {
+				call, ok := r.(*ssa.Call)
+				if !ok {
+					return nil
+				}
+				h := call.Common().StaticCallee()
+				if h == nil || h.Parent() != nil || !isNewHelper(h) {
+					return nil
+				}
+				k := -1
+				for i, a := range call.Common().Args {
+					if a == ssa.Value(mc) {
+						k = i
+					}
+				}
+				if k < 0 || k >= len(h.Params) {
+					return nil
+				}
+				invoked := false
+				for _, hb := range h.Blocks {
+					for _, hin := range hb.Instrs {
+						switch x := hin.(type) {
+						case *ssa.Call:
+							if x.Common().Value == ssa.Value(h.Params[k]) {
+								invoked = true
+							}
+						case *ssa.Go:
+							if x.Common().Value == ssa.Value(h.Params[k]) {
+								return nil
+							}
+						}
+					}
+				}
+				if !invoked {
+					return nil
+				}
+				out = append(out, call)
+			}
+		}
+	}
+	runByMemo[g] = out
+	return out
+}
+
+// closuresRunAt: the function literals a call hands to a new helper that runs them.
+func closuresRunAt(in ssa.Instruction) []*ssa.Function {
+	c, ok := in.(*ssa.Call)
+	if !ok {
+		return nil
+	}
+	var out []*ssa.Function
+	for _, a := range c.Common().Args {
+		if mc, ok := a.(*ssa.MakeClosure); ok {
+			if g, ok := mc.Fn.(*ssa.Function); ok {
+				for _, rc := range runByNewHelper(g) {
+					if rc == c {
+						out = append(out, g)
+					}
+				}
+			}
+		}
+	}
+	return out
+}
+
+// calleeOf: the function a call invokes directly (static callee or the literal being called).
+func calleeOf(c *ssa.Call) *ssa.Function {
+	if g := c.Common().StaticCallee(); g != nil {
+		return g
+	}
+	if mc, ok := c.Common().Value.(*ssa.MakeClosure); ok {
+		g, _ := mc.Fn.(*ssa.Function)
+		return g
+	}
+	return nil
+}
+
+// substAlong rewrites a term of `target` into the vocabulary of the function containing
+// ch[0], innermost call first. A call that merely runs a function literal handed to it
+// (withLock(func(){…})) binds no parameters of the literal: the literal speaks its
+// creator's vocabulary already, so that step is skipped.
+func substAlong(ch []*ssa.Call, target *ssa.Function, t *Term, conv bool) *Term {
+	for i := len(ch) - 1; i >= 0; i-- {
+		next := target
+		if i+1 < len(ch) {
+			next = ch[i+1].Parent()
+		}
+		if calleeOf(ch[i]) != next {
+			continue
+		}
+		t = substParams(t, argTerms(newTBMode(conv), ch[i]))
+	}
+	return t
 }
